@@ -1,0 +1,5 @@
+// +build !verif
+
+package fragmentation
+
+func verifYield(site string) {}
